@@ -54,13 +54,13 @@ def plan(tier, seed):
     fams = QUICK_FAMS if q else list(families.FAMILY_NAMES)
     specs = []
     for fam in fams:
-        specs.append(dict(label=fam, family=fam, containers=14 if q else 120,
+        specs.append(dict(label=fam, family=fam, containers=14 if q else 240,
                           seed=seed, tier=tier, variant='mon',
-                          timeout=900 if q else 3000))
+                          timeout=900 if q else 7200))
         specs.append(dict(label=fam + '-asan', family=fam,
                           containers=6 if q else 40, seed=seed + 21,
                           tier=tier, variant='asan',
-                          timeout=1500 if q else 3400))
+                          timeout=1500 if q else 7200))
     return specs
 
 
